@@ -210,3 +210,40 @@ func (c *WSClient) Next(timeout time.Duration) (WSFrame, bool) {
 		}
 	}
 }
+
+// ---- a listener whose connections stall once in the middle of a websocket message: right after the header of the
+// first text frame longer than 40 bytes has been written, the write of the payload is held back for a while ----
+type StallListener struct {
+	net.Listener
+	Hold time.Duration
+}
+
+func (l StallListener) Accept() (net.Conn, error) {
+	c, err := l.Listener.Accept()
+	if err != nil {
+		return nil, err
+	}
+	return &stallConn{Conn: c, hold: l.Hold}, nil
+}
+
+type stallConn struct {
+	net.Conn
+	hold    time.Duration
+	mu      sync.Mutex
+	stalled bool
+}
+
+func (c *stallConn) Write(b []byte) (int, error) {
+	n, err := c.Conn.Write(b)
+	isHeader := (len(b) == 2 && b[0] == 0x81 && b[1] > 40 && b[1] < 126) || (len(b) == 4 && b[0] == 0x81 && b[1] == 126)
+	if err == nil && isHeader {
+		c.mu.Lock()
+		first := !c.stalled
+		c.stalled = true
+		c.mu.Unlock()
+		if first {
+			time.Sleep(c.hold)
+		}
+	}
+	return n, err
+}
